@@ -224,8 +224,36 @@ func proxy(from, to *net.TCPConn, sizes []int, propagateClose bool, done chan st
 	}
 }
 
+// stSetup: the two ends of the connection a scenario runs on.
+type stSetup struct {
+	wT, rT   *net.TCPConn
+	rc       *crossnode.Conn // receiving Conn if the setup already made one (pool), else nil
+	useProxy bool
+	fwdDone  chan struct{}
+	prefix   string // prepended to the observation
+}
+
+// plainSetup: a fresh loopback pair, optionally through the re-chunking proxy.
+func plainSetup(c *stCase, addCloser func(io.Closer)) stSetup {
+	wT, pA := tcpPair()
+	addCloser(wT)
+	addCloser(pA)
+	su := stSetup{wT: wT, rT: pA, fwdDone: make(chan struct{})}
+	su.useProxy = c.tailErr || len(c.ch) > 0
+	if su.useProxy {
+		pB, r2 := tcpPair()
+		addCloser(pB)
+		addCloser(r2)
+		su.rT = r2
+		go proxy(pA, pB, c.ch, !c.tailErr, su.fwdDone)
+	}
+	return su
+}
+
 // execSt runs one stream scenario on real FrameStreams over loopback TCP.
-func execSt(toks []string) string {
+func execSt(toks []string) string { return execStWith(toks, plainSetup) }
+
+func execStWith(toks []string, setup func(*stCase, func(io.Closer)) stSetup) string {
 	c := parseSt(toks)
 	type result struct {
 		obs string
@@ -247,22 +275,14 @@ func execSt(toks []string) string {
 				resCh <- "panic " + strings.ReplaceAll(fmt.Sprint(r), " ", "_")
 			}
 		}()
-		wT, pA := tcpPair()
-		addCloser(wT)
-		addCloser(pA)
-		rT := pA
-		fwdDone := make(chan struct{})
-		useProxy := c.tailErr || len(c.ch) > 0
-		if useProxy {
-			pB, r2 := tcpPair()
-			addCloser(pB)
-			addCloser(r2)
-			rT = r2
-			go proxy(pA, pB, c.ch, !c.tailErr, fwdDone)
-		}
+		su := setup(&c, addCloser)
+		wT, rT, useProxy, fwdDone := su.wT, su.rT, su.useProxy, su.fwdDone
 		ctx := context.Background()
 		wc := crossnode.NewConn(ctx, "verif-w", wT, nil)
-		rc := crossnode.NewConn(ctx, "verif-r", rT, nil)
+		rc := su.rc
+		if rc == nil {
+			rc = crossnode.NewConn(ctx, "verif-r", rT, nil)
+		}
 		id, _ := crossnode.TunnelIDFromString(string(c.me))
 		W := crossnode.NewFrameStream(wc, id)
 		preDone := make(chan struct{})
@@ -406,7 +426,7 @@ func execSt(toks []string) string {
 			sb.WriteString(" " + r)
 		}
 		fmt.Fprintf(&sb, " rb %d wb %d", b2i(R.IsBroken()), b2i(W.IsBroken()))
-		resCh <- sb.String()
+		resCh <- su.prefix + sb.String()
 	}()
 	select {
 	case o := <-resCh:
